@@ -73,38 +73,70 @@ class Gen:
         self.n += 1
         return 'fz%dz' % self.n
 
-    def add(self, *a, **k):
-        f = Fn(*a, **k)
+    def add(self, name, kind, typing, shape, src, *a, **k):
+        # the harness counters (step n, break/continue/mutation steps) are C ints: keeps the generated C small and
+        # makes sure the only Python-level iteration in a template is the loop under observation
+        head, nl, rest = src.partition('\n')
+        head = re.sub(r'\b(mk|mu|bk|ct)\b', r'int \1', head)
+        cases = a[0]
+        if 'o.append(' in rest and not re.search(r'^\s*o = \[\]', rest, re.M) and 'list o' not in head:
+            # observations are appended to a list argument: its final state is compared (post_args) even when the
+            # call ends in an exception
+            head = head.replace('(', '(list o, ', 1)
+            cases = [('([], ' + c[0][1:], c[1]) for c in cases]
+            if k.get('ref') is not None:
+                rh, rnl, rrest = k['ref'].partition('\n')
+                k['ref'] = rh.replace('(', '(o, ', 1) + '\n' + rrest
+        a = (cases,) + tuple(a[1:])
+        src = head + '\n    cdef int n\n' + rest
+        f = Fn(name, kind, typing, shape, src, *a, **k)
         self.fns.append(f)
         return f
 
 
-def body(target, iterexpr, logexpr, shape, mut=None, rebind=None, indent='    '):
-    """loop text (without def line); uses n, bk, ct, mu"""
+def body(target, iterexpr, logexpr, shape, mut=None, rebind=None, indent='    ', rec='app', budget='raise'):
+    """loop text (without def line); uses n, bk, ct, mu.  rec='log': observations go through the harness log();
+    rec='app': they are appended to the local list `o` (much smaller generated C)"""
     L = []
     w = L.append
+    R = (lambda x: 'log(%s)' % x) if rec == 'log' else (lambda x: 'o.append(%s)' % x)
     w('n = 0')
     w('for %s in %s:' % (target, iterexpr))
     w('    n += 1')
-    w("    if n > %d: raise BufferError('budget')" % BUDGET)
-    if mut:
+    if budget == 'raise':
+        w("    if n > %d: raise BufferError('budget')" % BUDGET)
+    else:
+        w('    if n > %d:' % BUDGET)
+        w('        ' + R("'budget'"))
+        w('        break')
+    if isinstance(mut, dict):
+        w('    if n == mu or (mu < 0 and n >= -mu):')
+        first = True
+        for idx, (mname, stmts) in enumerate(mut.items()):
+            if not stmts:
+                continue
+            w('        %s mk == %d:' % ('if' if first else 'elif', idx))
+            first = False
+            for m in stmts:
+                w('            ' + m)
+    elif mut:
         w('    if n == mu or (mu < 0 and n >= -mu):')
         for m in mut:
             w('        ' + m)
     if shape in ('full', 'noelse', 'rebind'):
         w('    if n == bk:')
-        w("        log('brk')")
+        w('        ' + R("'brk'"))
         w('        break')
         w('    if n == ct:')
-        w("        log('cnt')")
+        w('        ' + R("'cnt'"))
         w('        continue')
-    w('    log(%s)' % logexpr)
+    w('    ' + R(logexpr))
     if rebind:
         for r in rebind:
-            w('    ' + r)
+            w('    ' + (r if not r.startswith('log(') or rec == 'log' else 'o.append(' + r[4:]))
     if shape in ('full', 'rebind'):
         w('else:')
-        w("    log('else')")
+        w('    ' + R("'else'"))
     return '\n'.join(indent + x for x in L)
 
 
@@ -164,39 +196,80 @@ def lit(v):
 
 # ------------------------------------------------------------------------------------------------ range, literal
 
-def gen_range_literal(g, R, typings, rng, rev_typings=()):
-    """all literal (start, stop, step) in [-R, R]^3 (+ 2-arg and 1-arg forms) for the given target typings"""
+def reset_target(typing, var='i'):
+    if typing in ('untyped',):
+        return None
+    if typing == 'objinit' or typing == 'object':
+        return '%s = None' % var
+    return '%s = 77' % var
+
+
+def final_expr(typing, var='i'):
+    return "(%s if n else 'empty')" % var if typing == 'untyped' else var
+
+
+def packed(g, kind, typing, loops):
+    """one function holding several literal range loops run one after the other; returns [(observations, final i), ...]
+    loops: list of (range expression, info)"""
+    decls, _ = decl_target(typing)
+    nm = g.name()
+    L = ['def %s(bk, ct):' % nm] + ['    ' + d for d in decls] + ['    res = []']
+    for rx, info in loops:
+        rs = reset_target(typing)
+        if rs:
+            L.append('    ' + rs)
+        L.append('    o = []')
+        L.append(body('i', rx, 'i', 'full', rec='app', budget='break'))
+        L.append('    res.append((o, %s))' % final_expr(typing))
+    L.append('    return res')
+    infos = [i for _, i in loops]
+    cases = [('(%d, %d)' % bc, {'packed': infos}) for bc in BKCT]
+    g.add(nm, kind, typing, 'full', '\n'.join(L) + '\n', cases, 'cfor', {'nloops': len(loops)})
+
+
+def range_text(form, a, b, c, rev):
+    if form == 'r3':
+        rx = 'range(%s, %s, %s)' % (lit(a), lit(b), lit(c))
+    elif form == 'r2':
+        rx = 'range(%s, %s)' % (lit(a), lit(b))
+    else:
+        rx = 'range(%s)' % lit(b)
+    return 'reversed(%s)' % rx if rev else rx
+
+
+def gen_range_literal(g, R, typings, rng, rev=False, sample=None):
+    """all literal (start, stop, step) in [-R, R]^3 (+ 2-arg and 1-arg forms) for the given target typings, packed by
+    (start, step): one function runs the loops for every stop.  Step 0 (ValueError at run time) gets its own function."""
     vals = list(range(-R, R + 1))
-    triples = [(a, b, c) for a in vals for b in vals for c in vals]
-    forms = [('r3', t) for t in triples] + [('r2', (a, b, 1)) for a in vals for b in vals] + [('r1', (0, b, 1)) for b in vals]
-    for rev in (False, True):
-        for typing in (rev_typings if rev else typings):
-            for form, (a, b, c) in forms:
+    groups = [('r3', [(a, b, c) for b in vals]) for a in vals for c in vals if c != 0]
+    groups += [('r2', [(a, b, 1) for b in vals]) for a in vals]
+    groups += [('r1', [(0, b, 1) for b in vals])]
+    for typing in typings:
+        gs = groups
+        if sample:
+            gs = rng.sample(groups, min(sample, len(groups)))
+        for form, trips in gs:
+            loops = []
+            for a, b, c in trips:
                 info = range_case_info(typing if typing in CTYPES else None, a, b, c)
-                if not info['admissible']:
-                    continue
-                if form == 'r3':
-                    rx = 'range(%s, %s, %s)' % (lit(a), lit(b), lit(c))
-                elif form == 'r2':
-                    rx = 'range(%s, %s)' % (lit(a), lit(b))
-                else:
-                    rx = 'range(%s)' % lit(b)
-                if rev:
-                    rx = 'reversed(%s)' % rx
-                decls, final = decl_target(typing)
-                shape = 'full'
-                nm = g.name()
-                src = 'def %s(bk, ct):\n%s\n%s\n    return %s\n' % (
-                    nm, '\n'.join('    ' + d for d in decls) or '    pass', body('i', rx, 'i', shape), final)
-                info = dict(info, triple=[a, b, c], form=form, rev=rev)
-                cases = [('(%d, %d)' % bc, info) for bc in BKCT]
-                g.add(nm, 'revrange-lit' if rev else 'range-lit', typing, shape, src, cases,
-                      'py-range' if c == 0 else 'cfor', info)
+                if info['admissible']:
+                    loops.append((range_text(form, a, b, c, rev), dict(info, triple=[a, b, c], form=form, rev=rev)))
+            if loops:
+                packed(g, 'revrange-lit' if rev else 'range-lit', typing, loops)
+        # step 0: a plain range() call must remain (ValueError)
+        for a, b in ((0, 3), (-2, 2), (3, 3))[:1 if sample else 3]:
+            decls, final = decl_target(typing)
+            nm = g.name()
+            rx = range_text('r3', a, b, 0, rev)
+            src = 'def %s(bk, ct):\n%s\n%s\n    return %s\n' % (
+                nm, '\n'.join('    ' + d for d in decls) or '    pass', body('i', rx, 'i', 'full'), final)
+            info = {'admissible': True, 'feat': 'step0', 'triple': [a, b, 0], 'rev': rev}
+            g.add(nm, ('revrange-lit' if rev else 'range-lit') + '-step0', typing, 'full', src, [('(0, 0)', info)], 'py-range', info,
+                  expect_opt=False)
 
 
-def gen_range_typebounds(g, types, rng, cap):
+def gen_range_typebounds(g, types, rng, cap, pack=8):
     """literal ranges at the bounds of each C target type"""
-    out = []
     for typing in types:
         lo, hi = CTYPES[typing]
         trip = set()
@@ -214,25 +287,18 @@ def gen_range_typebounds(g, types, rng, cap):
                 for b in (-1, -2, -3):
                     for c in (-1, -2, -3):
                         trip.add((a, b, c))
+        out = []
         for (a, b, c) in sorted(trip):
             info = range_case_info(typing, a, b, c)
             if info['admissible']:
-                out.append((typing, a, b, c, info))
-    rng.shuffle(out)
-    # keep every (typing, exit_fits, sign) cell represented, then fill up to cap
-    out.sort(key=lambda t: 0)  # stable no-op (order fixed by the seeded shuffle)
-    for typing, a, b, c, info in out[:cap]:
+                out.append((a, b, c, info))
+        rng.shuffle(out)
+        out = out[:cap]
         for rev in (False, True):
-            rx = 'range(%d, %d, %d)' % (a, b, c)
-            if rev:
-                rx = 'reversed(%s)' % rx
-            decls, final = decl_target(typing)
-            nm = g.name()
-            src = 'def %s(bk, ct):\n%s\n%s\n    return %s\n' % (
-                nm, '\n'.join('    ' + d for d in decls), body('i', rx, 'i', 'full'), final)
-            inf = dict(info, triple=[a, b, c], form='r3', rev=rev, bound=True)
-            g.add(nm, 'revrange-bound' if rev else 'range-bound', typing, 'full', src,
-                  [('(0, 0)', inf), ('(2, 1)', inf)], 'cfor', inf)
+            for i in range(0, len(out), pack):
+                loops = [(range_text('r3', a, b, c, rev), dict(info, triple=[a, b, c], form='r3', rev=rev, bound=True))
+                         for a, b, c, info in out[i:i + pack]]
+                packed(g, 'revrange-bound' if rev else 'range-bound', typing, loops)
 
 
 # ------------------------------------------------------------------------------------------------ range, runtime bounds
@@ -269,6 +335,8 @@ def gen_range_args(g, typings, steps, bkinds, shapes, R, rng, ncase_extra, rev=F
                     if rev:
                         rx = 'reversed(%s)' % rx
                     decls, final = decl_target(typing)
+                    rec = 'log' if bk == 'expr' else 'app'
+                    RR = (lambda x: 'log(%s)' % x) if rec == 'log' else (lambda x: 'o.append(%s)' % x)
                     rebind = None
                     if shape == 'rebind':
                         rebind = ['i = i + 3', 'log(i)', 'b = b - 1', 'a = a + 1']
@@ -282,27 +350,29 @@ def gen_range_args(g, typings, steps, bkinds, shapes, R, rng, ncase_extra, rev=F
                             '            n += 1',
                             "            if n > %d: raise BufferError('budget')" % BUDGET,
                             '            if n == bk:',
-                            "                log('brk')",
+                            '                ' + RR("'brk'"),
                             '                break',
                             '            if n == ct:',
-                            "                log('cnt')",
+                            '                ' + RR("'cnt'"),
                             '                continue',
-                            '            log((i, j))',
+                            '            ' + RR('(i, j)'),
                             '        else:',
-                            "            log('ielse')",
+                            '            ' + RR("'ielse'"),
                             '            continue',
-                            "        log('obrk')",
+                            '        ' + RR("'obrk'"),
                             '        break',
                             '    else:',
-                            "        log('oelse')"])
+                            '        ' + RR("'oelse'")])
                     else:
-                        btxt = body('i', rx, 'i', shape, rebind=rebind)
+                        btxt = body('i', rx, 'i', shape, rebind=rebind, rec=rec)
                     nm = g.name()
-                    src = 'def %s(%s, bk, ct):\n%s\n%s\n    return %s\n' % (
+                    src = 'def %s(%s, bk, ct):\n%s\n    o = []\n%s\n    return (o, %s)\n' % (
                         nm, params, '\n'.join('    ' + d for d in decls) or '    pass', btxt, final)
                     cases = []
                     pairs = [(a, b) for a in vals for b in vals] if step != 'n1' else [(0, b) for b in vals]
-                    if typing in CTYPES:
+                    if shape not in ('full', 'plain'):
+                        pass    # bodies that compute with the loop variable stay away from the type bounds
+                    elif typing in CTYPES:
                         lo, hi = CTYPES[typing]
                         for side in ((hi - 2, hi - 1, hi), (lo, lo + 1, lo + 2)):
                             pairs += [(a, b) for a in side for b in side] if step != 'n1' else []
@@ -330,9 +400,7 @@ def gen_range_args(g, typings, steps, bkinds, shapes, R, rng, ncase_extra, rev=F
                             cases.append(('(%s, 4, 0, 0)' % h, hinfo))
                             cases.append(('(1, %s, 0, 0)' % h, hinfo))
                     # static expectation: object targets are only optimised for literal or C-typed bounds
-                    expect = not (typing in ('untyped', 'objinit', 'object') and bk != 'cvar')
-                    if typing in ('objinit', 'object') and bk == 'cvar':
-                        expect = True
+                    expect = typing in CTYPES or (typing == 'untyped' and bk == 'cvar' and shape != 'rebind')
                     g.add(nm, ('revrange-' if rev else 'range-') + bk, typing, shape, src, cases, 'cfor',
                           {'step': step, 'bkind': bk, 'rev': rev}, expect_opt=expect)
 
@@ -438,20 +506,43 @@ class DIterRaises(dict):
 '''
 
 
+MU_COMBOS = [(1, 0, 0), (2, 0, 0), (3, 0, 0), (-1, 0, 0), (-2, 0, 0), (1, 1, 0), (2, 2, 0), (2, 3, 0), (1, 0, 2),
+             (2, 0, 2), (4, 0, 0), (-3, 0, 3), (5, 0, 0), (8, 0, 0)]
+PLAIN_COMBOS = [(0, 0, 0), (0, 2, 1), (0, 1, 0), (0, 0, 1), (0, 3, 2)]
+
+
 def mucases(values, rng, nper, mutates):
-    """(container expr, mu, bk, ct) tuples"""
+    """(container expr, mu, bk, ct) tuples for templates without a mutation selector"""
     out = []
     for v in values:
         out.append((v, 0, 0, 0))
-        combos = [(1, 0, 0), (2, 0, 0), (3, 0, 0), (-1, 0, 0), (-2, 0, 0), (1, 1, 0), (2, 2, 0), (2, 3, 0), (1, 0, 2),
-                  (2, 0, 2), (0, 2, 1), (0, 1, 0), (0, 0, 1), (4, 0, 0), (-3, 0, 3), (5, 0, 0), (8, 0, 0), (0, 3, 2)]
-        if not mutates:
-            combos = [c for c in combos if c[0] == 0]
-            for c in combos:
+        if v == 'None':
+            out.append((v, 1, 2, 0))
+            continue
+        for c in PLAIN_COMBOS[1:]:
+            out.append((v,) + c)
+        if mutates:
+            for c in rng.sample(MU_COMBOS, min(nper, len(MU_COMBOS))):
                 out.append((v,) + c)
-        else:
-            for c in rng.sample(combos, min(nper, len(combos))):
-                out.append((v,) + c)
+    return out
+
+
+def mkcases(values, muts, rng, nper):
+    """[(args-without-parens text, info)] for templates with the runtime mutation selector mk:
+    (container, mk, mu, bk, ct)"""
+    out = []
+    names = list(muts)
+    for v in values:
+        for c in (PLAIN_COMBOS if v != 'None' else PLAIN_COMBOS[:2]):
+            out.append(('%s, 0, %d, %d, %d' % ((v,) + c), {'feat': 'mu0', 'container': v, 'mut': 'none'}))
+        if v == 'None':
+            continue
+        for idx, mname in enumerate(names):
+            if not muts[mname]:
+                continue
+            for c in rng.sample(MU_COMBOS, min(nper, len(MU_COMBOS))):
+                out.append(('%s, %d, %d, %d, %d' % ((v, idx) + c),
+                            {'feat': 'murep' if c[0] < 0 else 'mu1', 'container': v, 'mut': mname}))
     return out
 
 
@@ -460,18 +551,14 @@ def gen_dict(g, rng, nper, muts):
              ('items', 'k, v', 'd.items()', '(k, v)'), ('items1', 'kv', 'd.items()', 'kv')]
     for typing in ('dict', 'untyped'):
         for form, target, it, logx in forms:
-            for mname in muts:
-                mut = DICT_MUT[mname]
-                params = ('dict d' if typing == 'dict' else 'd') + ', mu, bk, ct'
-                nm = g.name()
-                pre = '    k = v = kv = None'
-                src = 'def %s(%s):\n%s\n%s\n    return (k, v, kv, n)\n' % (nm, params, pre, body(target, it, logx, 'full', mut=mut))
-                vals = DICT_VALUES + (DICT_OBJECTS if typing == 'untyped' else [])
-                cases = [('(%s, %d, %d, %d)' % c, {'feat': 'mu%s' % ('0' if c[1] == 0 else ('rep' if c[1] < 0 else '1')),
-                                                    'container': c[0]})
-                         for c in mucases(vals, rng, nper, mut is not None)]
-                expect = not (typing == 'untyped' and form == 'iter')
-                g.add(nm, 'dict-' + form, typing, 'full', src, cases, 'dict', {'mut': mname}, expect_opt=expect)
+            params = ('dict d' if typing == 'dict' else 'd') + ', mk, mu, bk, ct'
+            nm = g.name()
+            pre = '    k = v = kv = None'
+            src = 'def %s(%s):\n%s\n%s\n    return (k, v, kv, n)\n' % (nm, params, pre, body(target, it, logx, 'full', mut=DICT_MUT))
+            vals = DICT_VALUES + (DICT_OBJECTS if typing == 'untyped' else [])
+            cases = [('(%s)' % t, i) for t, i in mkcases(vals, DICT_MUT, rng, nper)]
+            expect = not (typing == 'untyped' and form == 'iter')
+            g.add(nm, 'dict-' + form, typing, 'full', src, cases, 'dict', {}, expect_opt=expect)
     # typed targets and nested unpacking, literal dicts, dict comprehension sources
     extra = [
         ('dict-items-ctarget', 'dict', 'def %s(dict d, mu, bk, ct):\n    cdef long k = 77\n    cdef long v = 78\n%s\n    return (k, v, n)\n',
@@ -508,19 +595,14 @@ def gen_dict(g, rng, nper, muts):
 
 def gen_set(g, rng, nper, muts):
     for typing, decl in (('set', 'set s'), ('frozenset', 'frozenset s'), ('untyped', 's')):
-        for mname in muts:
-            mut = SET_MUT[mname]
-            if typing == 'frozenset' and mname != 'none':
-                continue
-            nm = g.name()
-            src = 'def %s(%s, mu, bk, ct):\n    x = None\n%s\n    return (x, n)\n' % (nm, decl, body('x', 's', 'x', 'full', mut=mut))
-            vals = SET_VALUES if typing != 'frozenset' else [('frozenset(%s)' % v if v != 'None' else v) for v in SET_VALUES]
-            if typing == 'untyped':
-                vals = SET_VALUES[:4] + ['St({1, 2, 3})', 'frozenset({4, 5})']
-            cases = [('(%s, %d, %d, %d)' % c, {'feat': 'mu%s' % ('0' if c[1] == 0 else ('rep' if c[1] < 0 else '1')),
-                                                'container': c[0]})
-                     for c in mucases(vals, rng, nper, mut is not None)]
-            g.add(nm, 'set-iter', typing, 'full', src, cases, 'set', {'mut': mname}, expect_opt=typing != 'untyped')
+        nm = g.name()
+        M = SET_MUT if typing != 'frozenset' else {'none': None}
+        src = 'def %s(%s, mk, mu, bk, ct):\n    x = None\n%s\n    return (x, n)\n' % (nm, decl, body('x', 's', 'x', 'full', mut=M))
+        vals = SET_VALUES if typing != 'frozenset' else [('frozenset(%s)' % v if v != 'None' else v) for v in SET_VALUES]
+        if typing == 'untyped':
+            vals = SET_VALUES[:4] + ['St({1, 2, 3})', 'frozenset({4, 5})']
+        cases = [('(%s)' % t, i) for t, i in mkcases(vals, M, rng, nper)]
+        g.add(nm, 'set-iter', typing, 'full', src, cases, 'set', {}, expect_opt=typing != 'untyped')
     extra = [
         ('set-literal', 'def %s(y, mu, bk, ct):\n    x = None\n%s\n    return (x, n)\n', ('x', "{1, y, 'z'}", 'x'),
          ['2', '1', "'z'", 'None', '[]', '(1, 2)']),
@@ -545,19 +627,15 @@ def gen_list(g, rng, nper, muts):
              ('enumerate-start', 'j, x', 'enumerate(l, 5)', '(j, x)'), ('enumerate-rev', 'j, x', 'enumerate(reversed(l))', '(j, x)')]
     for typing, decl in (('list', 'list l'), ('untyped', 'l')):
         for form, target, it, logx in forms:
-            for mname in muts:
-                mut = LIST_MUT[mname]
-                nm = g.name()
-                src = 'def %s(%s, mu, bk, ct):\n    x = j = None\n%s\n    return (j, x, n)\n' % (
-                    nm, decl, body(target, it, logx, 'full', mut=mut))
-                vals = LIST_VALUES + (['L([1, 2, 3])', 'LGet([1, 2])', '(1, 2, 3)', "'ab'", 'gen_list(3)', 'IterRaises(2)', '5']
-                                      if typing == 'untyped' else [])
-                cases = [('(%s, %d, %d, %d)' % c, {'feat': 'mu%s' % ('0' if c[1] == 0 else ('rep' if c[1] < 0 else '1')),
-                                                    'container': c[0]})
-                         for c in mucases(vals, rng, nper, mut is not None)]
-                expect = typing == 'list' or form.startswith('enumerate')
-                marker = 'list' if typing == 'list' else ('enum' if form.startswith('enumerate') else 'list')
-                g.add(nm, 'list-' + form, typing, 'full', src, cases, marker, {'mut': mname}, expect_opt=expect)
+            nm = g.name()
+            src = 'def %s(%s, mk, mu, bk, ct):\n    x = j = None\n%s\n    return (j, x, n)\n' % (
+                nm, decl, body(target, it, logx, 'full', mut=LIST_MUT))
+            vals = LIST_VALUES + (['L([1, 2, 3])', 'LGet([1, 2])', '(1, 2, 3)', "'ab'", 'gen_list(3)', 'IterRaises(2)', '5']
+                                  if typing == 'untyped' else [])
+            cases = [('(%s)' % t, i) for t, i in mkcases(vals, LIST_MUT, rng, nper)]
+            expect = typing == 'list' or form.startswith('enumerate')
+            marker = 'list' if typing == 'list' else ('enum' if form.startswith('enumerate') else 'list')
+            g.add(nm, 'list-' + form, typing, 'full', src, cases, marker, {}, expect_opt=expect)
     # tuple
     for form, target, it, logx in forms:
         nm = g.name()
@@ -600,19 +678,19 @@ def gen_enumerate(g, rng):
         src = tmpl % (nm, body(target, it, logx, 'full'))
         cases = []
         for s in seqs[sk]:
-            for st in (starts or [None]):
-                for bk, ct in ((0, 0), (2, 1)):
+            for st in ((starts or [None]) if s != 'None' else (starts or [None])[:2]):
+                for bk, ct in (((0, 0), (2, 1)) if s != 'None' else ((0, 0),)):
                     args = '(%s, %s, %d, %d)' % (s, st, bk, ct) if st is not None else '(%s, %d, %d)' % (s, bk, ct)
                     plain_int = st is None or re.match(r'^-?[\d \*\-]+$', st) is not None
                     cases.append((args, {'feat': 'start-int' if plain_int else 'start-hostile', 'start': st, 'container': s}))
-        g.add(nm, kind, sk, 'full', src, cases, 'enum', {'mut': 'none'}, expect_opt=kind != 'enum-single-target')
+        g.add(nm, kind, sk, 'full', src, cases, 'enum', {'mut': 'none'}, expect_opt=kind not in ('enum-single-target', 'enum-kwstart'))
 
 
 def gen_str_bytes(g, rng, nper):
     forms = [('plain', 'c', '%s', 'c'), ('reversed', 'c', 'reversed(%s)', 'c'), ('enumerate', 'j, c', 'enumerate(%s)', '(j, c)'),
              ('slice', 'c', '%s[1:3]', 'c'), ('enumerate-rev', 'j, c', 'enumerate(reversed(%s), 2)', '(j, c)')]
     # str
-    for ttyping, tdecl in (('untyped', '    c = None'), ('Py_UCS4', '    cdef Py_UCS4 c = 0x41')):
+    for ttyping, tdecl in (('untyped', '    c = None'), ('Py_UCS4', "    cdef Py_UCS4 c = u'A'")):
         for form, target, it, logx in forms:
             nm = g.name()
             src = 'def %s(str s, mu, bk, ct):\n%s\n    j = None\n%s\n    return (c, j, n)\n' % (
@@ -641,6 +719,8 @@ def gen_str_bytes(g, rng, nper):
                                  ('long', '    cdef long c = 77', BYTES_VALUES),
                                  ('object', '    cdef object c = None', BYTES_VALUES)):
         for form, target, it, logx in forms:
+            if ttyping not in ('untyped', 'int', 'unsigned char') and form not in ('plain', 'reversed'):
+                continue
             nm = g.name()
             fin = "(c if n else 'empty')" if ttyping == 'untyped' else 'c'
             src = 'def %s(bytes s, mu, bk, ct):\n%s\n    j = None\n%s\n    return (%s, j, n)\n' % (
@@ -649,7 +729,7 @@ def gen_str_bytes(g, rng, nper):
                                                 'highbyte': bool(re.search(r'\\x[89a-f]', c[0]))})
                      for c in mucases(vals, rng, nper, True)]
             g.add(nm, 'bytes-' + form, ttyping, 'full', src, cases, 'bytes', {'mut': 'rebind'},
-                  expect_opt=ttyping != 'object')
+                  expect_opt=ttyping != 'object' and not (ttyping == 'untyped' and form not in ('plain', 'slice')))
     for nmk, litx in (('bytes-literal', "b'ab\\xe9\\x00z'"), ('bytes-literal-empty', "b''")):
         for rev in (False, True):
             nm = g.name()
@@ -657,20 +737,21 @@ def gen_str_bytes(g, rng, nper):
             src = "def %s(mu, bk, ct):\n%s\n    return ((c if n else 'empty'), n)\n" % (nm, body('c', it, 'c', 'full'))
             cases = [('(0, %d, %d)' % bc, {'feat': 'mu0', 'container': litx}) for bc in BKCT]
             g.add(nm, nmk + ('-rev' if rev else ''), 'literal', 'full', src, cases, 'carray', {'mut': 'none'})
+    for rev in (False, True):
+        nm = g.name()
+        it = "reversed(b'ab\\xe9\\x00z')" if rev else "b'ab\\xe9\\x00z'"
+        src = "def %s(mu, bk, ct):\n    c = None\n%s\n    return (c, n)\n" % (nm, body('c', it, 'c', 'full'))
+        cases = [('(0, %d, %d)' % bc, {'feat': 'mu0', 'container': 'literal'}) for bc in BKCT]
+        g.add(nm, 'bytes-literal-objtarget' + ('-rev' if rev else ''), 'literal', 'full', src, cases, 'carray', {'mut': 'none'})
     # bytearray
     for form, target, it, logx in forms:
-        for mname in BA_MUT:
-            mut = BA_MUT[mname]
-            nm = g.name()
-            src = 'def %s(bytearray ba, mu, bk, ct):\n    c = j = None\n%s\n    return (c, j, n)\n' % (
-                nm, body(target, it % 'ba', logx, 'full', mut=mut))
-            vals = ["bytearray(b'')", "bytearray(b'a')", "bytearray(b'abc')", "bytearray(b'\\x00\\x80\\xff')",
-                    "bytearray(b'hello wo')", 'None']
-            cases = [('(%s, %d, %d, %d)' % c, {'feat': 'mu%s' % ('0' if c[1] == 0 else ('rep' if c[1] < 0 else '1')),
-                                                'container': c[0]})
-                     for c in mucases(vals, rng, nper, mut is not None)]
-            g.add(nm, 'bytearray-' + form, 'bytearray', 'full', src, cases, 'bytearray', {'mut': mname},
-                  expect_opt=form != 'slice')
+        nm = g.name()
+        src = 'def %s(bytearray ba, mk, mu, bk, ct):\n    c = j = None\n%s\n    return (c, j, n)\n' % (
+            nm, body(target, it % 'ba', logx, 'full', mut=BA_MUT))
+        vals = ["bytearray(b'')", "bytearray(b'a')", "bytearray(b'abc')", "bytearray(b'\\x00\\x80\\xff')",
+                "bytearray(b'hello wo')", 'None']
+        cases = [('(%s)' % t, i) for t, i in mkcases(vals, BA_MUT, rng, nper)]
+        g.add(nm, 'bytearray-' + form, 'bytearray', 'full', src, cases, 'bytearray', {})
 
 
 def gen_carray(g, rng):
@@ -680,18 +761,16 @@ def gen_carray(g, rng):
     fill_ref = '    arr = list(vals)\n    p = arr\n'
     forms = [
         ('full', 'arr', 'arr', False), ('slice-ab', 'arr[a:b]', 'arr[a:b]', True), ('slice-b', 'arr[:b]', 'arr[:b]', True),
-        ('slice-a', 'arr[a:]', 'arr[a:]', True), ('slice-step2', 'arr[a:b:2]', 'arr[a:b:2]', True),
+        ('slice-step2', 'arr[a:b:2]', 'arr[a:b:2]', True),
         ('slice-step3', 'arr[a:b:3]', 'arr[a:b:3]', True), ('slice-neg1', 'arr[a:b:-1]', 'arr[a:b:-1]', True),
         ('slice-neg2', 'arr[a:b:-2]', 'arr[a:b:-2]', True), ('ptr-b', 'p[:b]', 'p[:b]', True), ('ptr-ab', 'p[a:b]', 'p[a:b]', True),
-        ('rev-full', 'reversed(arr)', 'reversed(arr)', False), ('rev-ab', 'reversed(arr[a:b])', 'reversed(arr[a:b])', True),
-        ('rev-ptr', 'reversed(p[a:b])', 'reversed(p[a:b])', True), ('rev-step2', 'reversed(arr[a:b:2])', 'reversed(arr[a:b:2])', True),
-        ('enum-ab', 'enumerate(arr[a:b])', 'enumerate(arr[a:b])', True),
+        ('rev-full', 'reversed(arr)', 'reversed(arr)', False), ('enum-full', 'enumerate(arr)', 'enumerate(arr)', False),
         ('lit-consts', '(3, 1, 2)', '(3, 1, 2)', False), ('lit-cvars', '[a, b, a + b]', '[a, b, a + b]', True),
         ('rev-lit-cvars', 'reversed([a, b, a + b])', 'reversed([a, b, a + b])', True),
     ]
     for ttyping, tdecl in (('int', '    cdef int x = 77'), ('untyped', '    x = None'), ('long', '    cdef long x = 77')):
         for form, it, itref, useab in forms:
-            if ttyping == 'long' and form not in ('full', 'slice-ab', 'rev-ab'):
+            if ttyping == 'long' and form not in ('full', 'slice-ab', 'rev-full'):
                 continue
             target = 'j, x' if form.startswith('enum') else 'x'
             logx = '(j, x)' if form.startswith('enum') else 'x'
